@@ -105,18 +105,46 @@ def rule_p2(F):
         alts = [a for arm in m["arms"] for a in hir.pat_alternatives(arm["pat"])]
         if any("Ordering::" in a for a in alts):
             cm = m
-    ordmap = {}
     if cm is None:
         r.missing("match on Ordering in relative_associativity")
         return r
-    for row in hir.table(cm):
-        for a in row["alts"]:
-            if a.startswith("Ordering::"):
-                body = hir.strip(row["body"])
-                if body.get("k") == "mcall" and body["m"] == "associativity" and roots(None, body["recv"]) == {"self"}:
-                    ordmap[a.split("::")[1]] = "self.associativity()"
-                else:
-                    ordmap[a.split("::")[1]] = hir.last(row["result"] or "")
+    ord_rows = []  # (ordering, guard pairs or None, verdict)
+    guard_unknown = False
+
+    def pairs_of(g):
+        """(BinOp, BinOp) pairs a `matches!((self, other), ..)` / `if let` style guard accepts, or None."""
+        out = set()
+        found = False
+        for m in hir.nodes(g, "match"):
+            sroots = [sorted(roots(None, e)) for e in (hir.peel_refs(m["e"]).get("elems") or [])]
+            if sroots != [["self"], ["other"]]:
+                continue
+            for arm in m["arms"]:
+                body = hir.strip(arm["body"])
+                if body.get("k") == "lit" and body.get("v") is True:
+                    for alt in hir.pat_alternatives(arm["pat"]):
+                        mm = re.match(r"^\(BinOp::(\w+),BinOp::(\w+)\)$", alt)
+                        if mm:
+                            out.add((mm.group(1), mm.group(2)))
+                            found = True
+        return out if found else None
+    for arm in cm["arms"]:
+        for a in hir.pat_alternatives(arm["pat"]):
+            if not a.startswith("Ordering::"):
+                continue
+            body = hir.strip(arm["body"])
+            if body.get("k") == "mcall" and body["m"] == "associativity" and roots(None, body["recv"]) == {"self"}:
+                verdict = "self.associativity()"
+            else:
+                verdict = hir.last(hir.short_result(arm["body"]) or "")
+            gp = None
+            if arm.get("guard") is not None:
+                gp = pairs_of(arm["guard"])
+                if gp is None:
+                    guard_unknown = True
+            ord_rows.append((a.split("::")[1], gp, verdict, arm.get("guard") is not None))
+    if guard_unknown:
+        r.bad(rb.path, "guard", relfile(rb.file), cm["line"], "a guard in relative_associativity is not of the form matches!((self, other), (BinOp::X, BinOp::Y) | ..): the relation cannot be computed")
     sc = cm["e"]
     cmp_ok = sc.get("k") == "mcall" and sc["m"] == "cmp" and roots(None, sc["recv"]) == {"self"} and roots(None, sc["args"][0]) == {"other"} \
         and all(n.get("m") in ("precedence", "cmp") for n in hir.nodes(sc, "mcall"))
@@ -128,7 +156,14 @@ def rule_p2(F):
             return special_result
         la, lb = order.index(prec[a]), order.index(prec[b])
         o = "Less" if la < lb else "Greater" if la > lb else "Equal"
-        v = ordmap.get(o)
+        v = None
+        for (oo, gp, verdict, guarded) in ord_rows:
+            if oo != o:
+                continue
+            if guarded and (gp is None or (a, b) not in gp):
+                continue
+            v = verdict
+            break
         if v == "self.associativity()":
             return assoc.get(prec[a])
         return v
